@@ -143,6 +143,35 @@ def check(ctx, src):
               witness="every two-form sequence runs in reverse", detail="self.stmts + other.stmts; other.expr")
 
     check_rtemp(ctx, comp)
+    # while with a statement-bearing condition: the loop variable receives a *boolean copy* of the condition's value (two
+    # negations), not the value itself - a mutable value that the body empties would otherwise end the loop without the
+    # condition form being evaluated again
+    wh = comp.rm.func("compile_while_expression")
+    ctx.require(wh is not None, "compile_while_expression not found")
+    nots = {n.name for n in ast.walk(wh) if isinstance(n, ast.FunctionDef) and n is not wh and any(isinstance(c, ast.Call) and dotted(c.func) == "asty.UnaryOp" and "ast.Not" in str(norm(c)) for c in ast.walk(n))}
+
+    def _not_depth(e):
+        d = 0
+        while isinstance(e, ast.Call):
+            if isinstance(e.func, ast.Name) and e.func.id in nots and e.args:
+                d += 1
+                e = e.args[-1]
+            elif dotted(e.func) == "asty.UnaryOp" and "ast.Not" in str(norm(e)):
+                d += 1
+                e = next((k.value for k in e.keywords if k.arg == "operand"), None)
+            else:
+                break
+        return d, e
+
+    vals = []
+    for c in pyq.calls(wh):
+        if dotted(c.func) == "asty.Assign":
+            v = next((k.value for k in c.keywords if k.arg == "value"), None)
+            if v is not None and any(isinstance(x, ast.Attribute) and x.attr == "force_expr" for x in ast.walk(v)):
+                vals.append((c, _not_depth(v)))
+    ctx.decide("R-SEQ", f"{compq.RM}|compile_while_expression|boolean copy of the condition", None if not vals else all(d == 2 and isinstance(e, ast.Attribute) and e.attr == "force_expr" for _, (d, e) in vals),
+               f"the loop variable of a `while` whose condition has statements is assigned the condition's value under {[d for _, (d, _e) in vals]} negations; it must be a boolean copy (not not <value>)",
+               compq.RM, vals[0][0].lineno if vals else wh.lineno, witness="(while (do (f) xs) (.pop xs)) with a list: the condition form is evaluated one time too few", detail="not (not cond)", robust=True)
     # rules decided by sibling checks that are part of C01's language (comprehension strategy, shared if-temporary)
     from . import c04, c12
     from .. import core
